@@ -3,7 +3,7 @@ Model of `autosar-data/src/lexer.rs` (`ArxmlLexer::new`, `next`, `read_*`, `coun
 The Rust lexer keeps an absolute position into one buffer; the model keeps the unread rest of the
 buffer, which is the same information.  Line counting follows the Rust code exactly (for example
 the newlines inside an end tag are not counted, those inside a start tag are counted after the
-event's own line is taken).  No imports beyond `Bytes`.
+event's own line is taken: a start tag reports the line it begins on).  No imports beyond `Bytes`.
 -/
 import AutosarVerif.Model.Hash
 
@@ -121,7 +121,8 @@ def stepBegin (s : LState) (inner tail : Bytes) : Step :=
   let na := match splitAt1 isWs text with
     | some (a, b) => (a, b)
     | none => (text, [])
-  .ev (s.line + countNl text) (.beginElement na.1 na.2)
+  -- `Ok((self.line, self.read_element_start(endpos)))`: the line is read before the newlines inside the tag are counted
+  .ev s.line (.beginElement na.1 na.2)
     { rest := tail, line := s.line + countNl text, deferred := if isEnd then some na.1 else none }
 
 /-- character data up to the next `<` (white-space-only runs are skipped) -/
